@@ -293,4 +293,53 @@ def run(ctx):
         r.ok('no accumulating kernel writes a reused local scratch buffer inside a loop', loc='src/builtin', trivial=True)
     r.require_min(1)
 
+    # ---------------- R04h one construction of the generator
+    r = ctx.rule('R04h', 'the generator has one construction: whatever make_systematic_matrix returns is the matrix create_non_systematic_vand_matrix built, which is its single allocation',
+                 'the parity coefficients are defined by the elimination of the Vandermonde matrix for every shape: a second, shape-specific way of writing the matrix down is a second code')
+    def sources(fn, v, seen=None):
+        seen = seen if seen is not None else set()
+        v = strip_ptr_casts(fn, v)
+        if v in seen:
+            return set()
+        seen.add(v)
+        if v == 'null':
+            return {'null'}
+        d = fn.defs.get(v)
+        if d is None:
+            return {v}
+        if d.op == 'phi':
+            out = set()
+            for x, _ in d.incoming:
+                out |= sources(fn, x, seen)
+            return out
+        if d.op == 'select':
+            return sources(fn, d.ops[1], seen) | sources(fn, d.ops[2], seen)
+        if d.op in ('bitcast', 'getelementptr'):
+            return sources(fn, d.ops[0], seen)
+        return {d}
+    for fname, maker in (('make_systematic_matrix', '@create_non_systematic_vand_matrix'), ('create_non_systematic_vand_matrix', None)):
+        cands = [m.functions.get('@' + fname) for m in P.mods if m.src == 'src/builtin/rs_vand/liberasurecode_rs_vand.c']
+        cands = [x for x in cands if x is not None]
+        if not cands:
+            raise AnalysisBroken(f'anchor vanished: {fname}')
+        g = cands[0]
+        srcs = set()
+        for t in [i for i in g.insts() if i.op == 'ret' and i.ops]:
+            srcs |= sources(g, t.ops[0])
+        real = [x for x in srcs if x != 'null']
+        inst = f'{fname}: the returned matrix has one origin'
+        if maker is not None:
+            ok = len(real) == 1 and not isinstance(real[0], str) and real[0].op == 'call' and real[0].callee == maker
+        else:
+            ok = len(real) == 1 and not isinstance(real[0], str) and real[0].op == 'call' and real[0].callee in ('@malloc', '@calloc')
+        if ok:
+            r.ok(inst + f' ({real[0].callee})', func=g.name, loc=real[0].loc)
+        else:
+            shown = sorted((x if isinstance(x, str) else f'{x.callee if x.op == "call" else x.op} at line {x.line}') for x in real)
+            bad = [x for x in real if isinstance(x, str) or x.op != 'call' or x.callee != maker]
+            r.fail(inst, func=g.name, sig=f'{fname} returns matrices of {len(real)} origins', loc=(bad[0].loc if bad and not isinstance(bad[0], str) else g.mod.src),
+                   msg=f'{fname} returns a matrix from {shown}: the generator is not built by the one Vandermonde construction for every shape '
+                       '(a shape-specific shortcut yields different parity coefficients for those shapes; stripes written earlier are no longer decodable)')
+    r.require_min(2)
+
     ctx.borrow('c18', ['R18b'], 'the GF tables must be complete before any other thread can build a generator from them')
